@@ -47,8 +47,14 @@ def check_timing(seq: Sequence) -> Tuple[bool, List[SimpleNamespace]]:
 
         # Check block duration
         duration = calc_duration(block)
+        # The raster test is applied to the stored duration: this is the value that write() divides by the block raster
+        # (and asserts on); calc_duration(block) may exceed it by up to eps without a BLOCK_DURATION_MISMATCH.
         div_check(
-            duration, seq.system.block_duration_raster, event='block', field='duration', raster='block_duration_raster'
+            seq.block_durations[block_counter],
+            seq.system.block_duration_raster,
+            event='block',
+            field='duration',
+            raster='block_duration_raster',
         )
 
         if abs(duration - seq.block_durations[block_counter]) > eps:
